@@ -16,7 +16,7 @@ from ..roles import RoleSpec, solve_roles, blame_key, generic_neutral
 from .. import tables
 from .anchors import anchors
 from .common import mentions, guards_of, short, assigned_names, arg_of
-from .records import eval_sites, all_consumers, result_positions, EVAL, rule_snapshots_are_copies, rule_mean_over_samples_run
+from .records import eval_sites, all_consumers, consumers_in, result_positions, EVAL, rule_snapshots_are_copies, rule_mean_over_samples_run
 from .c02 import final_ctor
 from .c04 import rule_exits_select
 
@@ -191,6 +191,102 @@ def rule_record_coherence(eng, rep, A):
                 rep.bad(rule, site, "%s|%s|%s" % (fi.fid, c.target.qualname.split(".")[-1], what + ("|" + es.mode if es.mode != "direct" else "")), msg)
         else:
             rep.ok(rule, site, "point, residual, sample count and evaluation number all derive from the evaluation at %s" % eng.where(fi, es.call))
+
+
+def rule_extra_samples_same_slot(eng, rep, rule="C03-3c.extra-samples-go-to-the-slot-of-their-point"):
+    """Sibling agreement at every re-sampling site: rows 1.. of an evaluation buffer are averaged (Model.add_new_sample) into the very slot that
+    received row 0 of the same buffer (change_point(k, ..) -> the same k; add_new_point -> npt() - 1), in a loop `for i in range(1, <samples run>)`."""
+    from ..resolve import bind_call
+    ans = eng.fn("model.Model.add_new_sample")
+    pos = result_positions(eng)
+    n = 0
+    for ci in eng.calls_to(ans.fid):
+        fi = ci.caller
+        cfg = eng.cfg(fi)
+        node = cfg.cfg_node(ci.node)
+        site = eng.where(fi, ci.node)
+        bound = any(b for (tt, b) in eng.res.call_targets(fi, ci.node) if tt.fid == ans.fid)
+        b = bind_call(ci.node, ans, bound and ans.is_method)
+        karg, rarg = b.params.get(ans.posparams[1]), b.params.get(ans.posparams[2])
+        if karg is None or rarg is None or isinstance(karg, tuple) or isinstance(rarg, tuple):
+            rep.unknown(rule, site, "cannot bind the arguments of add_new_sample")
+            continue
+        n += 1
+        # the residual: buf[i, :] with i the variable of the enclosing loop
+        buf = ivar = None
+        if isinstance(rarg, ast.Subscript) and isinstance(rarg.value, ast.Name):
+            sl = rarg.slice.elts[0] if isinstance(rarg.slice, ast.Tuple) else rarg.slice
+            if isinstance(sl, ast.Name):
+                buf, ivar = rarg.value.id, sl.id
+        loops = [(h, st) for (h, kind, st) in cfg.loops if kind == "for" and node in cfg.loop_nodes(h) and isinstance(st.target, ast.Name) and st.target.id == ivar]
+        sliced = None
+        if buf is None and isinstance(rarg, ast.Name):
+            # `for row in buf[1:cnt, :]: add_new_sample(k, row)` -- iteration over the slice itself
+            for (h_, kind, st_) in cfg.loops:
+                if kind == "for" and node in cfg.loop_nodes(h_) and isinstance(st_.target, ast.Name) and st_.target.id == rarg.id \
+                        and isinstance(st_.iter, ast.Subscript) and isinstance(st_.iter.value, ast.Name):
+                    sl = st_.iter.slice.elts[0] if isinstance(st_.iter.slice, ast.Tuple) else st_.iter.slice
+                    if isinstance(sl, ast.Slice) and sl.step is None:
+                        buf, sliced = st_.iter.value.id, (h_, st_, sl)
+        if sliced is not None:
+            loops = [(sliced[0], sliced[1])]
+        if buf is None or not loops:
+            rep.bad(rule, site, "%s|extra-sample-shape|%s" % (fi.fid, short(rarg, 25)), "the extra sample `%s` is not row i of an evaluation buffer inside `for i in range(1, samples run)`" % short(rarg))
+            continue
+        h, st = loops[-1]
+        # the evaluation this buffer comes from
+        cnt = None
+        for es in eval_sites(eng):
+            if es.fi.fid != fi.fid:
+                continue
+            for (un, names) in es.unpacks:
+                if len(names) == len(pos) and names[0] == buf and un in cfg.defs_reaching(rarg.value if sliced is None else st.iter.value, buf):
+                    cnt = names[2]
+        it = st.iter
+        bufnode = rarg.value if sliced is None else st.iter.value
+        okloop = isinstance(it, ast.Call) and isinstance(it.func, ast.Name) and it.func.id == "range" and len(it.args) == 2 and const_value(it.args[0]) == 1 \
+            and cnt is not None and ekey(it.args[1]) == cnt
+        if sliced is not None:
+            sl = sliced[2]
+            okloop = cnt is not None and sl.lower is not None and const_value(sl.lower) == 1 and sl.upper is not None and ekey(sl.upper) == cnt
+        if not okloop:
+            rep.bad(rule, eng.where(fi, st), "%s|extra-sample-loop|%s" % (fi.fid, short(it, 30)),
+                    "extra samples are taken over `%s`, not over range(1, %s): a sample is skipped, averaged twice, or an unfilled row is averaged in" % (short(it), cnt or "<samples run>"))
+            continue
+        # the store of row 0 that dominates this loop
+        firsts = []
+        for c in consumers_in(eng, fi):
+            r0 = c.arg("rvec")
+            if c.target.fid == "model.Model.save_point" or r0 is None:
+                continue
+            if isinstance(r0, ast.Subscript) and isinstance(r0.value, ast.Name) and r0.value.id == buf and cfg.dominates(c.node, h) \
+                    and set(cfg.defs_reaching(r0.value, buf)) == set(cfg.defs_reaching(bufnode, buf)):
+                sl0 = r0.slice.elts[0] if isinstance(r0.slice, ast.Tuple) else r0.slice
+                if const_value(sl0) == 0:
+                    firsts.append(c)
+        if len(firsts) != 1:
+            rep.bad(rule, site, "%s|extra-sample-no-first-store" % fi.fid, "no single change_point/add_new_point storing row 0 of `%s` dominates this re-sampling loop (found %d)" % (buf, len(firsts)))
+            continue
+        c0 = firsts[0]
+        if c0.target.fid == "model.Model.add_new_point":
+            okk = ekey(karg).replace(" ", "").endswith(".npt()-1")
+            want = "<model>.npt() - 1 (the point just appended)"
+        else:
+            k0 = c0.arg("k")
+            okk = k0 is not None and ekey(k0) == ekey(karg)
+            if okk:
+                for sub in ast.walk(karg):
+                    if isinstance(sub, ast.Name):
+                        twin = [x for x in ast.walk(k0) if isinstance(x, ast.Name) and x.id == sub.id]
+                        if twin and set(cfg.defs_reaching(sub, sub.id)) != set(cfg.defs_reaching(twin[0], sub.id)):
+                            okk = False
+            want = "`%s` (the slot that received row 0 at %s)" % (short(k0, 30) if k0 is not None else "?", eng.where(fi, c0.call))
+        if okk:
+            rep.ok(rule, site, "rows 1.. of `%s` are averaged into %s" % (buf, want))
+        else:
+            rep.bad(rule, site, "%s|extra-sample-other-slot|%s" % (fi.fid, short(karg, 25)),
+                    "extra samples of this point are averaged into slot `%s` but its first sample was stored in %s: the residuals of two different points are mixed" % (short(karg, 30), want))
+    rep.require_count(rule, "re-sampling sites (add_new_sample calls)", n, 6)
 
 
 def _non_eval_store(eng, rep, rule, c, site):
@@ -537,6 +633,7 @@ def run(eng, rep):
     A = anchors(eng)
     rule_roles(eng, rep, A)
     rule_record_coherence(eng, rep, A)
+    rule_extra_samples_same_slot(eng, rep)
     rule_tuple_coherence(eng, rep, A)
     rule_objective_construction(eng, rep, A)
     rule_exits_select(eng, rep, rule="C03-7.all-exits-go-through-final-selection")
